@@ -254,6 +254,7 @@ SEGMENTS = {
         sig="pub(crate) fn seg_wc(&self, off: u64, mapping: &Mapping, buf: &[u8]) -> Qcow2Result<()>",
         await_calls=["ensure_l2_offset", "get_l2_slice", "alloc_and_map_cluster", "write_at_for_cow", "do_write_data_file",
                      "free_clusters", "clear_new_cluster", "flush_refcount", "flush_table"],
+        await_calls_opt=["call_fallocate", "cluster_is_new"],
         rewrites=[(r"\.write\(\)\.await", ".kwrite()"),
                   (r"self\.k_alloc_and_map_cluster\(", "self.k_alloc_and_map_cluster_rec("),
                   (r"self\.k_do_write_data_file\(", "self.k_do_write_data_file_s(")],
